@@ -37,5 +37,9 @@ def to_sympy(poly: PolyLike) -> Any:
     from sympy import symbols  # type: ignore
 
     locals_ = dict(zip(poly.names, symbols(poly.names)))
-    polynomial = eval(str(poly), locals_, {})  # pylint: disable=eval-used
+    # the text is evaluated as Python: it has to be written with Python's own
+    # operator signs whatever display signs are selected.
+    with numpoly.global_options(display_exponent="**", display_multiply="*"):
+        text = str(poly)
+    polynomial = eval(text, locals_, {})  # pylint: disable=eval-used
     return polynomial
